@@ -115,8 +115,8 @@ def holds (c : Case) (impl : String) : String :=
           ¬ registered.any (fun (k, d, _) => strBytes d = a.name ∧ ((h.lookup (strBytes k)).isSome ∨ (p.lookup (strBytes k)).isSome))
         if invented then "FAILS absent_not_shown: an attribute is shown for a field that is absent"
         else match attrs.filter (fun a => a.name = strBytes "Signature") with
-          | [s] => if B64.decode true false s.value = some sig then "holds"
-                   else "FAILS signature_readback: shown signature is not base64url of the raw signature"
+          | [s] => if s.value = B64.encode true false sig then "holds"
+                   else "FAILS signature_readback: shown signature is not the base64url (RFC 4648 §5, unpadded) text of the raw signature"
           | _ => "FAILS signature_readback: Signature attribute missing or repeated"
     | none => "FAILS unparsable impl info"
   | some _, _ => "FAILS jwt_iff: three base64 segments with two JSON objects, but not reported as a JWT"
